@@ -54,7 +54,7 @@ struct engine {
   size_t max_depth = 20000;
   engine() : s(c) {
     z3::params p(c);
-    p.set("timeout", 30000u);
+    p.set("timeout", 60000u);
     s.set(p);
   }
   static engine &get() {
